@@ -11,8 +11,10 @@
    views, tags of other members or topics, replays, responses before queries).  The single constraint is
    authenticated links: a message that an honest member accepts as coming from an honest member was emitted by
    that member (as a broadcast, or addressed to this receiver).
-   [fx] / [fs] are the variant flags fix_onepass / fix_solo: true = the repaired code that the correspondence
-   check (checks/disc.py) demands of /repo, false = the pinned upstream code. *)
+   [fx] / [fs] / [fq] are the variant flags fix_onepass / fix_solo / fix_queries: true = the repaired code that the
+   correspondence check (checks/disc.py) demands of /repo, false = the code before the respective repair.
+   The event Stop (after Synchronize has returned) models the orchestrator that stops serving the topic: a stopped
+   member is handed no further message. *)
 From Coq Require Import List NArith Sorted. Import ListNotations.
 Require Import TSS.Base.Base TSS.Wire.Codec TSS.Wire.CodecFacts.
 Require Import TSS.Disc.Sort TSS.Disc.Model TSS.Disc.Global TSS.Disc.Exec TSS.Disc.Live TSS.Disc.Refute TSS.Disc.Wire.
@@ -22,8 +24,8 @@ Require Import TSS.Disc.Sort TSS.Disc.Model TSS.Disc.Global TSS.Disc.Exec TSS.Di
    which this member handled an announcement (membership or query message) carrying that member's own tag for
    this topic. *)
 Theorem C07_valid :
-  forall (tp : N) (mem : list N) (exp : nat) (fx fs : bool) (honest : N -> Prop) (S : gstate),
-  reachable tp mem exp fx fs honest S ->
+  forall (tp : N) (mem : list N) (exp : nat) (fx fs fq : bool) (honest : N -> Prop) (S : gstate),
+  reachable tp mem exp fx fs fq honest S ->
   forall (h : N) (L : view), honest h -> In (h, Continue L) (emitted S) ->
   Sorted N.lt L /\ NoDup L /\ length L = exp /\ ((1 <= exp)%nat -> In h L) /\
   (forall x, In x L -> x <> h ->
@@ -34,8 +36,8 @@ Print Assumptions C07_valid.
 (* Agreement (repaired variant fx = true): a and b honest, a completed with L, b is in L, b completed with L':
    then L = L'.  For any number and behaviour of Byzantine members. *)
 Theorem C07_agree :
-  forall (tp : N) (mem : list N) (exp : nat) (fx fs : bool) (honest : N -> Prop) (S : gstate),
-  fx = true -> reachable tp mem exp fx fs honest S ->
+  forall (tp : N) (mem : list N) (exp : nat) (fx fs fq : bool) (honest : N -> Prop) (S : gstate),
+  fx = true -> reachable tp mem exp fx fs fq honest S ->
   forall (a b : N) (L L' : view), honest a -> honest b ->
   In (a, Continue L) (emitted S) -> In b L -> In (b, Continue L') (emitted S) -> L = L'.
 Proof. exact agree. Qed.
@@ -47,22 +49,22 @@ Print Assumptions C07_agree.
    with [1;2;3], honest 2 -- a member of that list -- with [2;3;4].  (Reproduced on the real code: deterministically
    through the verif hook, and ~1 in 3000 attempts with real goroutines; repaired in /repo commit 2c5437e.) *)
 Theorem C07_agree_tree_refuted :
-  reachable 7 [1;2;3;4] 3 false false (honestL [1;2]) (race_run false) /\
+  reachable 7 [1;2;3;4] 3 false false false (honestL [1;2]) (race_run false) /\
   In (1, Continue [1;2;3]) (emitted (race_run false)) /\ In (2, Continue [2;3;4]) (emitted (race_run false)).
 Proof. exact agree_tree_refuted_reachable. Qed.
 Print Assumptions C07_agree_tree_refuted.
 
 (* the same script on the repaired variant: member 1 does not complete *)
 Theorem C07_agree_fixed_same_script :
-  run_ok 7 [1;2;3;4] 3 true false [1;2] ginit race_script = true /\
+  run_ok 7 [1;2;3;4] 3 true false false [1;2] ginit race_script = true /\
   conts_of (race_run true) 1 = [] /\ conts_of (race_run true) 2 = [[2;3;4]].
 Proof. exact agree_fixed_same_script. Qed.
 Print Assumptions C07_agree_fixed_same_script.
 
 (* Error and continuation are exclusive; the continuation runs at most once; an error is returned at most once. *)
 Theorem C07_no_continue_on_error :
-  forall (tp : N) (mem : list N) (exp : nat) (fx fs : bool) (honest : N -> Prop) (S : gstate),
-  reachable tp mem exp fx fs honest S ->
+  forall (tp : N) (mem : list N) (exp : nat) (fx fs fq : bool) (honest : N -> Prop) (S : gstate),
+  reachable tp mem exp fx fs fq honest S ->
   forall h, honest h ->
   (length (gconts h (emitted S)) <= 1)%nat /\ (length (gerrs h (emitted S)) <= 1)%nat /\
   (gerrs h (emitted S) <> [] -> gconts h (emitted S) = []).
@@ -71,18 +73,18 @@ Print Assumptions C07_no_continue_on_error.
 
 (* Once the context ended (CtxDone handled by h), no continuation is invoked in any continuation of the run. *)
 Theorem C07_no_continue_after_ctxdone :
-  forall (tp : N) (mem : list N) (exp : nat) (fx fs : bool) (honest : N -> Prop) (S : gstate),
-  reachable tp mem exp fx fs honest S ->
+  forall (tp : N) (mem : list N) (exp : nat) (fx fs fq : bool) (honest : N -> Prop) (S : gstate),
+  reachable tp mem exp fx fs fq honest S ->
   forall h, honest h -> In (h, CtxDone) (hist S) ->
-  forall S', extends tp mem exp fx fs honest S S' -> gconts h (emitted S') = gconts h (emitted S).
+  forall S', extends tp mem exp fx fs fq honest S S' -> gconts h (emitted S') = gconts h (emitted S).
 Proof. exact after_ctxdone. Qed.
 Print Assumptions C07_no_continue_after_ctxdone.
 
 (* "Otherwise it returns an error without invoking the continuation", too few: if all the peers whose
    announcements h handled fit in a list shorter than exp - 1, h never invokes the continuation. *)
 Theorem C07_too_few_no_continue :
-  forall (tp : N) (mem : list N) (exp : nat) (fx fs : bool) (honest : N -> Prop) (S : gstate),
-  reachable tp mem exp fx fs honest S ->
+  forall (tp : N) (mem : list N) (exp : nat) (fx fs fq : bool) (honest : N -> Prop) (S : gstate),
+  reachable tp mem exp fx fs fq honest S ->
   forall (h : N) (A : list N), honest h ->
   (forall x ty v, In (h, Handle x (ty, (tp, x), v)) (hist S) -> ty <> MResp -> In x mem -> x <> h -> In x A) ->
   (length A < exp - 1)%nat -> forall L, ~ In (h, Continue L) (emitted S).
@@ -92,7 +94,7 @@ Print Assumptions C07_too_few_no_continue.
 (* "Too many" cannot mean that everybody fails: three honest members, expected 2 -- the two that find each other first
    complete with [1;2] (valid, in agreement), the third runs into its deadline.  Inherent in the protocol. *)
 Theorem C07_too_many_some_continue :
-  run_ok 7 [1;2;3] 2 true true [1;2;3] ginit many_script = true /\
+  run_ok 7 [1;2;3] 2 true true true [1;2;3] ginit many_script = true /\
   conts_of many_run 1 = [[1;2]] /\ conts_of many_run 2 = [[1;2]] /\
   conts_of many_run 3 = [] /\ errs_of many_run 3 = 1%nat.
 Proof. exact too_many_some_continue. Qed.
@@ -101,26 +103,26 @@ Print Assumptions C07_too_many_some_continue.
 (* Liveness, part 1 (every interleaving): exactly the expected members run, all honest, nobody else's traffic is
    handled.  Then a member can fail only through its context, and whoever completes has the sorted list of all. *)
 Theorem C07_exact_run_only_deadline :
-  forall (tp : N) (mem : list N) (exp : nat) (fx fs : bool) (honest : N -> Prop) (S : gstate) (H : list N),
-  reachable tp mem exp fx fs honest S -> NoDup H -> (forall x, honest x <-> In x H) -> length H = exp ->
+  forall (tp : N) (mem : list N) (exp : nat) (fx fs fq : bool) (honest : N -> Prop) (S : gstate) (H : list N),
+  reachable tp mem exp fx fs fq honest S -> NoDup H -> (forall x, honest x <-> In x H) -> length H = exp ->
   (forall h from m, In (h, Handle from m) (hist S) -> In from H) ->
   forall h, honest h ->
-  (In (h, Return_err) (emitted S) -> In (h, CtxDone) (hist S)) /\
+  (forall e, In (h, Return_err e) (emitted S) -> In (h, CtxDone) (hist S)) /\
   (forall L, In (h, Continue L) (emitted S) -> L = isort H).
 Proof. exact exact_run_only_deadline. Qed.
 Print Assumptions C07_exact_run_only_deadline.
 
 (* Liveness, part 2 (_partial): for every list H of at least two distinct configured identifiers, the fair schedule
-   [fair tp H] (tick, deliver, tick, deliver, intersectedView, deliver queries, deliver responses, take them; no
-   CtxDone) is an admissible run from the initial state in which every member of H invokes the continuation with
+   [fair tp H] (tick, deliver, tick, deliver, intersectedView, deliver queries, deliver responses, take the
+   responses, take the queries; no CtxDone; repaired variant fix_queries) is an admissible run from the initial state in which every member of H invokes the continuation with
    sort H.  PARTIAL because real time is a premise, not modelled: the deadline must not come before such a schedule
    is through (two probe intervals plus message delays), links deliver in FIFO order, and the run is this schedule
    rather than an arbitrary fair one. *)
 Theorem C07_live_partial :
   forall (tp : N) (mem : list N) (fx fs : bool) (H : list N),
   NoDup H -> incl H mem -> (2 <= length H)%nat ->
-  reachable tp mem (length H) fx fs (honestH H) (grun tp mem (length H) fx fs ginit (fair tp H)) /\
-  (forall b, In b H -> In (b, Continue (isort H)) (emitted (grun tp mem (length H) fx fs ginit (fair tp H)))) /\
+  reachable tp mem (length H) fx fs true (honestH H) (grun tp mem (length H) fx fs true ginit (fair tp H)) /\
+  (forall b, In b H -> In (b, Continue (isort H)) (emitted (grun tp mem (length H) fx fs true ginit (fair tp H)))) /\
   (forall x, ~ In (x, CtxDone) (fair tp H)).
 Proof. exact live. Qed.
 Print Assumptions C07_live_partial.
@@ -128,18 +130,92 @@ Print Assumptions C07_live_partial.
 (* ... a member that expects only itself: completes at its first intersectedView in the repaired variant; could
    NEVER complete upstream (fs = false), whatever happens (repaired in /repo commit d2bcdfe). *)
 Theorem C07_live_solo :
-  forall (h t : N) (mem : list N) (fx : bool),
-  lrun (mkCfg h t mem 1 fx true) state0 [Pass1; Pass2] =
-  (mkSt [] [] [] None (Done [h]), [Bcast MQuery [h]; Continue [h]]).
+  forall (h t : N) (mem : list N) (fx fq : bool),
+  lrun (mkCfg h t mem 1 fx true fq) state0 [Pass1; Pass2] =
+  (mkSt [] [] [] [] [] [] false None (Done [h]), [Bcast MQuery [h]; Continue [h]]).
 Proof. exact solo_fixed_continues. Qed.
 Print Assumptions C07_live_solo.
 
 Theorem C07_live_solo_tree_refuted :
-  forall (tp : N) (mem : list N) (exp : nat) (fx fs : bool) (honest : N -> Prop) (S : gstate),
-  fs = false -> exp = 1%nat -> reachable tp mem exp fx fs honest S ->
+  forall (tp : N) (mem : list N) (exp : nat) (fx fs fq : bool) (honest : N -> Prop) (S : gstate),
+  fs = false -> exp = 1%nat -> reachable tp mem exp fx fs fq honest S ->
   forall h L, honest h -> ~ In (h, Continue L) (emitted S).
 Proof. exact solo_tree_never_continues. Qed.
 Print Assumptions C07_live_solo_tree_refuted.
+
+(* Teardown safety (repaired variant fq = true, with fx = true), in an exact honest run -- the members are the
+   duplicate-free list H, exp = |H|, all handled traffic comes from members of H -- and for EVERY interleaving:
+   when a has completed with L, then for every other member b, a has handled b's query carrying L (so b had finished
+   its first loop) and a has sent b its acknowledgement carrying exactly L.  Whatever b still waits for is on its
+   way; a may stop serving the topic.  (With Byzantine configured members outside the list the statement is false:
+   like acknowledgements, queries are counted from ANY configured peer, so a Byzantine member can stand in for an
+   honest one -- see the report; not needed for the finding C01-a, which is about honest runs.) *)
+Theorem C07_teardown_safe :
+  forall (tp : N) (mem : list N) (exp : nat) (fx fs fq : bool) (honest : N -> Prop) (S : gstate) (H : list N),
+  fx = true -> fq = true ->
+  reachable tp mem exp fx fs fq honest S -> NoDup H -> (forall x, honest x <-> In x H) -> length H = exp ->
+  (forall h from m, In (h, Handle from m) (hist S) -> In from H) ->
+  forall a L, honest a -> ph (g S a) = Done L ->
+  forall b, In b H -> b <> a ->
+    In (a, Handle b (MQuery, (tp, b), L)) (hist S) /\ In (a, SendTo b MResp L) (emitted S).
+Proof. exact teardown_safe. Qed.
+Print Assumptions C07_teardown_safe.
+
+(* ... "before a continued": in the state in which a takes the step that invokes its continuation, b's query has
+   already been handled and the acknowledgement for b already been sent. *)
+Theorem C07_teardown_safe_before :
+  forall (tp : N) (mem : list N) (exp : nat) (fx fs fq : bool) (honest : N -> Prop) (S : gstate) (ge : gevent) (H : list N),
+  fx = true -> fq = true ->
+  reachable tp mem exp fx fs fq honest S -> admissible tp mem exp fx fs fq honest S ge ->
+  NoDup H -> (forall x, honest x <-> In x H) -> length H = exp ->
+  (forall h from m, In (h, Handle from m) (hist (gstep tp mem exp fx fs fq S ge)) -> In from H) ->
+  forall a L, honest a -> gconts a (emitted S) = [] -> gconts a (emitted (gstep tp mem exp fx fs fq S ge)) = [L] ->
+  forall b, In b H -> b <> a ->
+    In (a, Handle b (MQuery, (tp, b), L)) (hist S) /\ In (a, SendTo b MResp L) (emitted S).
+Proof. exact teardown_safe_before. Qed.
+Print Assumptions C07_teardown_safe_before.
+
+(* The code before the repair (fq = false) did not have this property -- finding C01-a.  Members 1 and 2, expected 2,
+   both honest, every message delivered: 1 completes on 2's acknowledgement and is torn down (Stop); 2 then finishes
+   its first loop and queries a member that is no longer served.  In NO continuation of that admissible run does 2
+   ever invoke its continuation: it can only end through its deadline ("haven't received 1 out of 1
+   acknowledgements").  Observed on the real code in 13 of 25 whole runs of the teardown family. *)
+Theorem C07_teardown_tree_refuted :
+  run_ok 7 [1;2] 2 true true false [1;2] ginit td_script = true /\
+  conts_of (td_run false) 1 = [[1;2]] /\ stopped (g (td_run false) 1) = true /\
+  ph (g (td_run false) 2) = Query [1;2] 1 0 /\
+  snd (step (cfgOf 7 [1;2] 2 true true false 2) (g (td_run false) 2) CtxDone) = [Return_err EAcks] /\
+  forall S', extends 7 [1;2] 2 true true false (honestL [1;2]) (td_run false) S' -> conts_of S' 2 = [].
+Proof. exact teardown_tree_refuted_all. Qed.
+Print Assumptions C07_teardown_tree_refuted.
+
+(* ... and why teardown safety is stated for honest runs: with a Byzantine configured member (4 of {1,2,3,4}, expected
+   3) honest 1 completes and is torn down on the queries and acknowledgements of 2 and 4, while honest 3, a member of
+   its list, is still in its first loop and has no acknowledgement from 1 coming. *)
+Theorem C07_teardown_byzantine_refuted :
+  run_ok 7 [1;2;3;4] 3 true true true [1;2;3] ginit tdb_script = true /\
+  conts_of tdb_run 1 = [[1;2;3]] /\ stopped (g tdb_run 1) = true /\ ph (g tdb_run 3) = Collect /\
+  (forall v, ~ In (1, SendTo 3 MResp v) (emitted tdb_run)).
+Proof. exact teardown_byzantine_witness. Qed.
+Print Assumptions C07_teardown_byzantine_refuted.
+
+(* the same script on the repaired variant: 1 waits for 2's query, Stop does nothing before that, both complete *)
+Theorem C07_teardown_fixed_same_script :
+  run_ok 7 [1;2] 2 true true true [1;2] ginit (td_script ++ td_rest) = true /\
+  conts_of (td_run true) 1 = [] /\ ph (g (td_run true) 1) = Query [1;2] 0 1 /\ stopped (g (td_run true) 1) = false /\
+  conts_of (grun 7 [1;2] 2 true true true ginit (td_script ++ td_rest)) 1 = [[1;2]] /\
+  conts_of (grun 7 [1;2] 2 true true true ginit (td_script ++ td_rest)) 2 = [[1;2]].
+Proof. exact teardown_fixed_same_script. Qed.
+Print Assumptions C07_teardown_fixed_same_script.
+
+(* non-vacuity of teardown safety: three members, the fast ones torn down while the slow one is still in its first
+   loop; all three complete and are stopped *)
+Example C07_teardown_nonvacuous :
+  run_ok 7 [1;2;3] 3 true true true [1;2;3] ginit td3_script = true /\
+  conts_of td3_run 1 = [[1;2;3]] /\ conts_of td3_run 2 = [[1;2;3]] /\ conts_of td3_run 3 = [[1;2;3]] /\
+  stopped (g td3_run 1) = true /\ stopped (g td3_run 2) = true /\ stopped (g td3_run 3) = true.
+Proof. exact teardown_three_complete. Qed.
+Print Assumptions C07_teardown_nonvacuous.
 
 (* The tag: for every function prf that is injective in (topic, id) and yields 32 bytes, handling the wire encoding
    of a message is handling the abstract message naming the (topic, id) its tag stands for. *)
@@ -156,7 +232,7 @@ Print Assumptions C07_tag_binding.
 (* Non-vacuity: members 0, 256 and 65535 of the configured {0, 7, 256, 65535}, expected 3, reach the continuation
    in an admissible run (by computation). *)
 Example C07_nonvacuous :
-  reachable 7 [0; 7; 256; 65535] 3 true true (honestL [0; 256; 65535]) ok_run /\
+  reachable 7 [0; 7; 256; 65535] 3 true true true (honestL [0; 256; 65535]) ok_run /\
   In (0, Continue [0; 256; 65535]) (emitted ok_run) /\ In (256, Continue [0; 256; 65535]) (emitted ok_run) /\
   In (65535, Continue [0; 256; 65535]) (emitted ok_run).
 Proof. exact three_honest_complete. Qed.
